@@ -155,6 +155,7 @@ var (
 //@ assertions-only reflection closure: only the restoration of the per-field tag flags on the error exits is decided
 //@ requires dec != nil && uo != nil
 //@ modifies everything
+//@ at call xd.Namespaces.Last().InsertUnquoted#0 assert-before unknown-name-unescaped: sameSlice(callArg0, name)
 //@ at return#13 assert nil-field-exit-restored: uo.Flags == flagsOriginal && uo.Format == ""
 //@ at return#14 assert fatal-error-exit-restored: uo.Flags == flagsOriginal && uo.Format == ""
 
@@ -374,3 +375,23 @@ func typeKindOf(t any) reflect.Kind { return t.(reflect.Type).Kind() }
 //@ requires enc != nil && mo != nil
 //@ modifies everything
 //@ at call va.IsNil#0 assert-before hop-is-cycle-checked: visitedMark(va.Value) || (typeKindOf(typeElemOf(t)) != reflect.Pointer && typeKindOf(typeElemOf(t)) != reflect.Interface)
+
+// ---------------------------------------------------------------- more guards of the arshal layer
+//
+// (C17) The coder cannot be reset from within a user method or function: the
+// WithinArshalCall flag is raised (value 1) before and lowered (value 0) after the
+// user code in all four wrappers (zz_verif_arshal.go). (C08) Unknown member
+// names are recorded in the namespace in unescaped form. (C04) A float is parsed with
+// the precision of its destination.
+
+//@ extern reflect.(Value).Addr() (result reflect.Value)
+//@ trusted reflect getter: pure with respect to the heap the contracts speak about
+
+
+//@ func makeFloatArshaler$2
+//@ property C04 C10
+//@ assertions-only reflection closure: only the precision passed to the float parser is decided
+//@ requires dec != nil && uo != nil
+//@ modifies everything
+//@ at call strconv.ParseFloat#0 assert-before precision-of-destination: callArg1 == bits
+//@ at call strconv.ParseFloat#1 assert-before precision-of-destination: callArg1 == bits
